@@ -305,6 +305,33 @@ def subject(case):
                 r['part_exc'] = common.exc_class(e) + ': ' + str(e)[:80]
             if not any(x['path'] == p for x in out['paths']):
                 out['paths'].append(r)
+        # descendant steps: .//name (every element of that name in the document, below the root) and .../parent[k]//name
+        if a:
+            step = path_of(doc, a, ns, False, case['default_ns']).rsplit('/', 1)[-1]
+            alla = [b for b in elems if b and elems[b].tag == elems[a].tag]
+            forms = [('.//' + step, alla)]
+            if len(a) >= 2:
+                gp = a[:-2]
+                forms.append((path_of(doc, gp, ns, True, case['default_ns']) + '//' + step,
+                              [b for b in alla if len(b) > len(gp) and b[:len(gp)] == gp]))
+            for p, sel in forms:
+                if any(x['path'] == p for x in out['paths']):
+                    continue
+                sel = sorted(sel)
+                r = {'addr': list(a), 'path': p, 'positions': False, 'same_decl': True}
+                try:
+                    part = list(s.iter_decode(res, path=p, namespaces=nsmap, validation='lax', converter=conv))
+                    r['part'] = [strip_root_xmlns(x) for x in part if not isinstance(x, Exception)]
+                    r['part_errors'] = sorted(str(x.reason)[:60] for x in part if isinstance(x, Exception))
+                    r['val_errors'] = sorted(str(e.reason)[:60] for e in s.iter_errors(res, path=p, namespaces=nsmap))
+                    # a selected element that lies inside another selected element is processed with it and again on its own
+                    r['want'] = [strip_root_xmlns(jsonml_sub(full, b)) for b in sel]
+                    r['want_errors'] = sorted(reason for b in sel for pth, reason in full_errors
+                                              if pth == path_of(doc, b, ns, True, case['default_ns']) or
+                                              pth.startswith(path_of(doc, b, ns, True, case['default_ns']) + '/'))
+                except Exception as e:  # noqa
+                    r['part_exc'] = common.exc_class(e) + ': ' + str(e)[:80]
+                out['paths'].append(r)
     # the declarations used when the document is validated chunk by chunk (lazy resources look them up by path too)
     out['lazy'] = {}
     for k in (1, 2):
